@@ -96,13 +96,15 @@ _DEPTH = re.compile(r"The depth of the complete state graph search is (\d+)")
 
 def _java(args, env=None, timeout=3600, xmx="3g", xss="1g", deque=False):
     e = dict(os.environ)
-    opts = f"-Xss{xss}"
-    if deque:
-        opts += " -Dtlc2.tool.queue.IStateQueue=StateDeque"
-    e["JAVA_TOOL_OPTIONS"] = opts
+    e.pop("JAVA_TOOL_OPTIONS", None)
     if env:
         e.update(env)
-    cmd = ["java", "-XX:+UseParallelGC", f"-Xmx{xmx}", "-cp", TLA_CP, "tlc2.TLC"] + args
+    # -Xss must be on the command line: JAVA_TOOL_OPTIONS does not reach the launcher's main thread,
+    # which is where TLC evaluates ASSUMEs, initial states and POSTCONDITIONs.
+    cmd = ["java", f"-Xss{xss}", "-XX:+UseParallelGC", f"-Xmx{xmx}"]
+    if deque:
+        cmd.append("-Dtlc2.tool.queue.IStateQueue=StateDeque")
+    cmd += ["-cp", TLA_CP, "tlc2.TLC"] + args
     try:
         p = subprocess.run(cmd, cwd=SPEC, env=e, stdout=subprocess.PIPE, stderr=subprocess.STDOUT, text=True,
                            timeout=timeout)
